@@ -28,7 +28,7 @@ def run(tier):
         if p.returncode != 0:
             raise vf.Infra("hclrt failed: " + p.stderr[-2000:])
         info = json.loads(p.stdout)
-        viols, events, _ = vf.monitor_trace("HCLTrace", "HCLTrace.cfg", out)
+        viols, events, _ = vf.monitor_trace("HCLTrace", "HCLTrace.cfg", out, independent=True)
         full = [json.loads(x) for x in open(out + ".full").read().split("\n") if x]
     finally:
         vf.rm(d)
